@@ -586,7 +586,7 @@ async fn end_to_end(rep: &mut Report, v6: bool) {
             });
         }
     });
-    let client = crate::props::c10::make_client(crate::props::c10::Params { beh: vec![], at_ms: vec![], racing: false, server_settings: true, stall_uplink: false }).unwrap();
+    let client = crate::props::c10::make_client(crate::props::c10::Params { beh: vec![], at_ms: vec![], racing: false, server_settings: true, stall_uplink: false, parked_writer: false }).unwrap();
     client.verif_session_pool().add_idle_session(pair.client.clone()).await;
     let name = format!("end to end, target {taddr}");
     rep.case(Some(&name));
